@@ -13,6 +13,7 @@ from fractions import Fraction
 from genlm.grammar import CFG, Boolean, Float, EOS
 
 sys.path.insert(0, __file__.rsplit("/", 1)[0])
+import cfgops  # noqa: E402
 from cfgops import build, enc, tname, Timeout  # noqa: E402
 
 
@@ -25,6 +26,8 @@ def untok(t):
         return "eos"
     if isinstance(t, str) and len(t) == 1 and "a" <= t <= "z":
         return ord(t) - ord("a")
+    if isinstance(t, int) and not isinstance(t, bool):
+        return t
     return repr(t)
 
 
@@ -111,6 +114,7 @@ def main():
     out = []
     for job in req["jobs"]:
         res = []
+        cfgops.TMODE["mode"] = job.get("tnames", "str")
         signal.alarm(int(job.get("build_timeout", 20)))
         try:
             cfg = build(job["g"], job["sr"])
